@@ -54,7 +54,7 @@ class Engine(EngineBase):
 
     def generate(self, rng, tier):
         knobs = {"listing": rng.choice(["shuffle", "shuffle", "sorted", "reverse"]), "chunk": "none",
-                 "clock": "inc"}
+                 "clock": "inc", "miss_threshold": rng.choice([None, None, None, 1, 2])}
         n = rng.randrange(1, 6)
         sps = []
         while len(sps) < n:
@@ -121,6 +121,13 @@ class Engine(EngineBase):
     def _run(self, sc, world, res, signac):
         pp = world.p("proj")
         project = signac.init_project(pp)
+        if sc["knobs"].get("miss_threshold") is not None:
+            # a low cache-miss warning threshold (documented configuration key): the branch taken
+            # after many misses is reached with a handful of jobs
+            with world.observing():
+                with O.io_open(os.path.join(pp, ".signac", "config"), "ab") as f:
+                    f.write(b"statepoint_cache_miss_warning_threshold = %d\n" % sc["knobs"]["miss_threshold"])
+            project = signac.Project(pp)
         sps = [norm(s) for s in sc["sps"]]
         ids = [cid(s) for s in sps]
         for i, sp in enumerate(sps):
